@@ -541,6 +541,11 @@ READ_OPS = (["rd~", "rd0"] + ["rd%d" % n for n in AMTS] + ["r1~"] + ["r1%d" % n 
 def make_case(payload, coding, framing, seg, decode, ops, rng=None, parts=1, sizes=(), chunk_sizes=(),
               trailers=False, preload=0, kind="", status=200, head=0, enforce=1, cl_text=None):
     body, ce, model = encode(coding, payload, rng, parts, sizes)
+    if ce and rng is not None and rng.random() < 0.25:
+        # coding names are case-insensitive and may carry optional white space around the commas
+        ce = "".join(c.upper() if rng.random() < 0.5 else c for c in ce)
+        if "," in ce and rng.random() < 0.5:
+            ce = ce.replace(", ", rng.choice([",", " , ", ",  "]))
     wire, meta = build_wire(framing, body if not head else b"", ce, chunk_sizes, rng, trailers, status, cl_text)
     exp_payload = payload
     if coding == "gzs+garbage":
